@@ -7,15 +7,14 @@
 (* paths; good, stale and bogus self references.                              *)
 EXTENDS Rounds, Json, TLC
 
-CONSTANTS NC, Driven, Targets, AliasTargets, MaxNum, MaxOps
+CONSTANTS NC, Driven, Targets, AliasTargets, MaxNum, MaxOps, Order, Jumps
 
 Chains == 1..NC
 
-InitG == [ num |-> [c \in Chains |-> 1],
-           ext |-> [c \in Chains |-> FRef((c % NC) + 1, 0)],
-           has |-> [c \in Chains |-> FALSE],
-           dl  |-> [c \in Chains |-> [x \in Chains |-> 0]],
-           ml  |-> [c \in Chains |-> [x \in Chains |-> 0]] ]
+\* the node order of the harness genesis (identifiers sorted as strings; reported by the harness at Reset)
+OrderReal == <<7, 4, 1, 2, 3, 6, 5>>
+
+InitG == InitGraph(NC, Order)
 
 VARIABLES G, n, last
 vars == <<G, n, last>>
@@ -27,7 +26,10 @@ EarlyOK(r, early) == early => (r.k = "F" /\ r.n < G.num[r.c])
 
 OtherTarget(c) == CHOOSE x \in Targets : x # c
 
+NoOp(op, c) == [op |-> op, c |-> c, self |-> "-", ext |-> URef, early |-> FALSE, fin |-> FALSE, strict |-> FALSE]
+
 Ops ==
+    (IF Jumps /\ ~G.late THEN { NoOp("Jump", 1) } ELSE {}) \cup
     UNION { 
       { [op |-> "Add", c |-> c, self |-> "-", ext |-> URef, early |-> FALSE, fin |-> FALSE, strict |-> FALSE] : x \in { 1 : y \in {1} \cap (IF G.has[c] THEN {} ELSE {1}) } }
       \cup
@@ -48,13 +50,13 @@ Ops ==
              st \in BOOLEAN }
       : c \in Driven }
 
-Init == G = InitG /\ n = 0 /\ last = [o |-> [op |-> "Init"], res |-> "ok", dummy |-> FALSE]
+Init == G = InitG /\ n = 0 /\ last = [o |-> [op |-> "Init"], res |-> "ok", why |-> "ok", dummy |-> FALSE]
 
 Next == /\ n < MaxOps
         /\ \E o \in { x \in Ops : EarlyOK(x.ext, x.early) } :
              LET r == ApplyOp(G, o) IN
                /\ G' = r.G
-               /\ last' = [o |-> o, res |-> r.res, dummy |-> r.dummy]
+               /\ last' = [o |-> o, res |-> r.res, why |-> r.why, dummy |-> r.dummy]
         /\ n' = n + 1
 
 Spec == Init /\ [][Next]_vars
@@ -75,9 +77,13 @@ ReachBackLink == [][~(last'.o.op = "Start" /\ last'.res = "err" /\ last'.o.self 
                        /\ last'.o.ext.k = "F" /\ last'.o.ext.c # last'.o.c /\ last'.o.ext.n < G.num[last'.o.ext.c]
                        /\ last'.o.fin /\ last'.o.ext.n < G.ml[last'.o.c][last'.o.ext.c])]_vars
 ReachDummy == [][~(last'.dummy /\ G'.num[last'.o.c] = 3)]_vars
+\* a strict transition refused only by the "too early against the best round" rule, with a reference
+\* that would have moved the link
+ReachTooEarly == [][~(last'.why = "tooearly" /\ last'.o.ext.n > G.ml[last'.o.c][last'.o.ext.c])]_vars
 
 Compact(H) == [num |-> [c \in Targets |-> H.num[c]], ext |-> [c \in Targets |-> H.ext[c]],
-               has |-> [c \in Targets |-> H.has[c]], dl |-> [c \in Driven |-> [x \in Targets |-> H.dl[c][x]]]]
+               has |-> [c \in Targets |-> H.has[c]], dl |-> [c \in Driven |-> [x \in Targets |-> H.dl[c][x]]],
+               era |-> [c \in Targets |-> H.era[c]], hera |-> [c \in Targets |-> H.hera[c]], late |-> H.late]
 
-Emit == PrintT("EDGE " \o ToJson([from |-> Compact(G), o |-> last'.o, ok |-> last'.res, to |-> Compact(G')]))
+Emit == PrintT("EDGE " \o ToJson([from |-> Compact(G), o |-> last'.o, ok |-> last'.res, why |-> last'.why, to |-> Compact(G')]))
 =============================================================================
